@@ -85,7 +85,7 @@ Print Assumptions C12_stop_silences.
 
 (* ---- histories under the hypothesis the property states, made precise (C12_Model.contract):
         connect() only when Idle (state kDisconnected, no channel, no connection, no other connect() in flight,
-        no retry timer pending, delay at its initial value); timers `timely`; Down in loop order;
+        no retry timer pending, delay at its initial value); timers `timely`;
         ~TcpClient on the loop thread, with a connection only while no functor of the Connector is queued.
         `admissible init l`: every executed step of l satisfies the contract (rejected ops did not happen). *)
 
@@ -118,7 +118,7 @@ Print Assumptions C12_backoff.
 
 (* reconnect iff retry_ && connect_: when the client's connection goes down, restart() (new cycle at 500 ms, new
    attempt in the same step) exactly when both flags are set; otherwise the step reports DOWN and nothing else *)
-Theorem C12_retry_policy : forall s s' ev c o, reachable s -> contract s Down = true ->
+Theorem C12_retry_policy : forall s s' ev c o, reachable s ->
   find_down (conns s) 0 None = Some c -> nth_error (conns s) c = Some o -> ccb o = CbClient ->
   step s Down = Ok s' ev ->
   (c_retry s && c_connect s = true -> exists i e rest, ev = EvDown c :: EvWant :: EvCycle 500 :: EvAttempt i e :: rest) /\
